@@ -128,17 +128,25 @@ func (w *world) fatal() bool {
 }
 
 func metadataFor(denom string, variant int64) banktypes.Metadata {
+	// bit 0: name differs from the base denomination; bit 1: denomination units carry aliases;
+	// bit 2: another display exponent
 	name := denom
-	if variant%3 == 1 {
-		name = strings.ToUpper(denom) + " coin"
-	}
-	if variant%3 == 2 {
+	if variant&1 != 0 {
 		name = "tok-" + denom
 	}
-	return banktypes.Metadata{
-		Description: "test coin " + denom, Base: denom, Display: denom + "disp", Name: name, Symbol: strings.ToUpper(denom),
-		DenomUnits: []*banktypes.DenomUnit{{Denom: denom, Exponent: 0}, {Denom: denom + "disp", Exponent: uint32(6 + variant%3)}},
+	exp := uint32(6)
+	if variant&4 != 0 {
+		exp = 9
 	}
+	md := banktypes.Metadata{
+		Description: "test coin " + denom, Base: denom, Display: denom + "disp", Name: name, Symbol: strings.ToUpper(denom),
+		DenomUnits: []*banktypes.DenomUnit{{Denom: denom, Exponent: 0}, {Denom: denom + "disp", Exponent: exp}},
+	}
+	if variant&2 != 0 {
+		md.DenomUnits[0].Aliases = []string{"atto" + denom}
+		md.DenomUnits[1].Aliases = []string{"big" + denom, "mega" + denom}
+	}
+	return md
 }
 
 func newWorld(cfg map[string]int64, rec *kernel.Rec) (*world, error) {
@@ -188,9 +196,11 @@ func newWorld(cfg map[string]int64, rec *kernel.Rec) (*world, error) {
 	w.now = w.now.Add(5 * time.Second)
 	w.c.BeginBlock(w.now)
 	codes := [][]byte{
-		deployCode(erc20contracts.ERC20MinterBurnerDecimalsContract.ABI, erc20contracts.ERC20MinterBurnerDecimalsContract.Bin, "ExtToken", "EXT", uint8(6)),
+		deployCode(erc20contracts.ERC20MinterBurnerDecimalsContract.ABI, erc20contracts.ERC20MinterBurnerDecimalsContract.Bin, "exttoken", "EXT", uint8(6)),
 		deployCode(erc20contracts.ERC20MaliciousDelayedContract.ABI, erc20contracts.ERC20MaliciousDelayedContract.Bin, big.NewInt(0)),
 		deployCode(erc20contracts.ERC20DirectBalanceManipulationContract.ABI, erc20contracts.ERC20DirectBalanceManipulationContract.Bin, big.NewInt(0)),
+		// a second instance with the same name, symbol and decimals as ext[0]: a legitimate target for UpdateTokenPairERC20
+		deployCode(erc20contracts.ERC20MinterBurnerDecimalsContract.ABI, erc20contracts.ERC20MinterBurnerDecimalsContract.Bin, "exttoken", "EXT", uint8(6)),
 	}
 	for _, code := range codes {
 		nonce := w.c.App.EvmKeeper.GetNonce(w.c.ReadCtx(), w.gov.Eth)
